@@ -39,7 +39,7 @@ def build_plan(spec, world):
     rng = random.Random(spec['seed'])
     fl = spec['flavour']
     n = spec['nthreads']
-    kinds = ['closure', 'loop', 'method', 'lambda', 'callee']
+    kinds = ['closure', 'loop', 'method', 'lambda', 'callee', 'wrapped']
     shared = [world.new_group(rng.choice(kinds)) for _ in range(rng.choice([1, 2, 3]))]
     if rng.random() < 0.25:
         shared.append(world.new_group('broken'))
@@ -64,8 +64,9 @@ def build_plan(spec, world):
                 g = world.new_group(twin_kind, twin_params, name='twin_t%d' % t)
                 g.twin = True
             else:
-                g = world.new_group(rng.choice(['closure', 'loop']), name='priv_t%d' % t)
+                g = world.new_group(rng.choice(['closure', 'loop', 'inplace', 'inplace']), name='priv_t%d' % t)
                 g.twin = False
+                g.inplace = True      # a changed definition keeps its file, line and name
             g.load()
             private[t] = g
     progs = []
@@ -92,7 +93,7 @@ def build_plan(spec, world):
                 gi = rng.randrange(len(shared)); g = shared[gi]
                 if g.kind == 'siblings':
                     gi = 0; g = shared[0]
-            nf = {'closure': 5, 'callee': 4, 'loop': 4, 'directive': 2, 'directive_closure': 2, 'method': 3, 'lambda': 2,
+            nf = {'closure': 5, 'callee': 4, 'inplace': 2, 'wrapped': 3, 'loop': 4, 'directive': 2, 'directive_closure': 2, 'method': 3, 'lambda': 2,
                   'broken': 2}[g.kind]
             fi = rng.randrange(nf)
             opt = rng.choice(opts)
@@ -250,6 +251,26 @@ def package(spec, rec, verdicts, errors, wall):
 # deterministic witnesses of the known findings (and of nothing else)
 # ----------------------------------------------------------------------------------------------
 
+def fresh_process_reference(scratch, path, fname, args_list):
+    """Convert `fname` of the file `path` in a brand-new interpreter (no cache, memo or module state of this
+    process) and return its behaviour on the sample inputs and its generated source."""
+    import subprocess
+    prog = ('import sys, json, inspect\n'
+            'sys.path.insert(0, %r)\n'
+            'import malt\n'
+            'src = open(%r).read()\n'
+            'ns = {"__name__": "c10fresh"}\n'
+            'exec(compile(src, %r, "exec"), ns)\n'
+            'g = malt.to_graph(ns[%r], recursive=True, experimental_optional_features=None)\n'
+            'print(json.dumps({"beh": [repr(g(*a)) for a in %r], "src": inspect.getsource(g)}))\n'
+            % (common.REPO, path, path, fname, [list(a) for a in args_list]))
+    p = subprocess.run([sys.executable, '-c', prog], text=True, stdout=subprocess.PIPE, stderr=subprocess.PIPE,
+                       env=dict(os.environ, TMPDIR=scratch, PYTHONDONTWRITEBYTECODE='1'), timeout=600)
+    if p.returncode != 0:
+        raise common.InfraError('fresh-process reference failed: ' + p.stderr[-800:])
+    return json.loads(p.stdout.strip().split('\n')[-1])
+
+
 def run_witness(name):
     """Single scenarios on the real code; same recording as the random histories."""
     scratch = tempfile.mkdtemp(prefix='c10w_')
@@ -293,6 +314,49 @@ def run_witness(name):
                     req(f, uF, 'converted_call', j=0); req(f, j=1); req(f, W.BASE_OPT, 'convert', j=2)
                 else:
                     req(f, j=0); req(f, uF, 'converted_call', j=1); req(f, uF, 'actual', j=2)
+            elif name in ('redefine-inplace-compile', 'redefine-inplace-reload'):
+                # a definition edited IN PLACE: same file name, same first line, same name, new body -> new code object
+                import importlib
+                if name == 'redefine-inplace-compile':
+                    g = world.new_group('inplace', {'g': 4, 'c': 2, 'd': 1}, name='edit')
+                    g.inplace = True
+                    old = g.load()
+                    path = os.path.join(scratch, 'edit_inplace.py')
+                    req(old[0], j=0); req(old[1], (True, False, True, ()), 'converted_call', j=1); req(old[0], W.BASE_OPT, 'actual', j=2)
+                    g.params['c'], g.params['d'] = 1000, 7
+                    new = g.load()
+                else:
+                    path = os.path.join(scratch, 'c10edit_mod.py')
+                    tmpl = W.TEMPLATES['inplace']
+                    with open(path, 'w') as fh:
+                        fh.write(tmpl.format(g=4, c=2, d=1))
+                    sys.path.insert(0, scratch)
+                    importlib.invalidate_caches()
+                    mod = importlib.import_module('c10edit_mod')
+                    old = [W.Fn(mod.scale, [(3,), (0,)], 'module function before the edit', pure=True)]
+                    req(old[0], j=0); req(old[0], W.BASE_OPT, 'actual', j=2)
+                    with open(path, 'w') as fh:
+                        fh.write(tmpl.format(g=4, c=1000, d=7))
+                    st = os.stat(path)
+                    os.utime(path, (st.st_atime + 5, st.st_mtime + 5))
+                    importlib.invalidate_caches()
+                    mod = importlib.reload(mod)
+                    new = [W.Fn(mod.scale, [(3,), (0,)], 'module function after edit + importlib.reload', pure=True)]
+                    sys.path.remove(scratch)
+                    sys.modules.pop('c10edit_mod', None)
+                extra['same_definition_site'] = (old[0].fn.__code__.co_filename == new[0].fn.__code__.co_filename,
+                                                 old[0].fn.__code__.co_firstlineno == new[0].fn.__code__.co_firstlineno,
+                                                 old[0].fn.__code__ != new[0].fn.__code__)
+                for j, e in enumerate(new):
+                    req(e, j=10 + 3 * j); req(e, (True, False, True, ()), 'converted_call', j=11 + 3 * j); req(e, (False, True, True, ()), 'actual', j=12 + 3 * j)
+                req(old[0], j=30)         # the old object is still alive and keeps its own behaviour
+                fresh = fresh_process_reference(scratch, path, 'scale', new[0].args)
+                served = malt.to_graph(new[0].fn, recursive=True, experimental_optional_features=None)
+                got = {'beh': [repr(served(*a)) for a in new[0].args], 'src': W.gen_source(served)}
+                if got['beh'] != fresh['beh'] or (got['src'] is not None and got['src'] != fresh['src']):
+                    verdicts.append({'thread': 0, 'index': 40, 'req_pos': -1, 'label': new[0].label,
+                                     'what': 'served conversion of the edited function differs from a conversion made in a fresh '
+                                             'process (stale definition)', 'got': got['beh'], 'expected': fresh['beh']})
             elif name in ('status-disabled-first', 'status-enabled-first'):
                 # the same converted_call request under different conversion statuses of the calling context
                 g = world.new_group('closure', {'g': 4, 'c': 1, 'd': 2})
@@ -304,6 +368,15 @@ def run_witness(name):
                     order = ['converted_call@E', 'converted_call@D', 'converted_call@E', 'converted_call@U']
                 for j, rt in enumerate(order):
                     req(helper, uF, rt, j=2 * j); req(f, uF, rt, j=2 * j + 1)
+            elif name in ('wrapped-lib-first', 'wrapped-user-first'):
+                # one code object (functools.wraps wrapper): a sibling that is legitimately run as-is and a convertible one
+                g = world.new_group('wrapped', {'g': 4, 'c': 1, 'd': 2})
+                user1, lib, user2 = g.load()
+                uF = (True, False, True, ())
+                order = [lib, user1, user2, lib] if name == 'wrapped-lib-first' else [user1, lib, user2, user1]
+                for j, e in enumerate(order):
+                    req(e, uF, 'converted_call', j=2 * j); req(e, uF, 'convert', j=2 * j + 1)
+                req(user2, W.BASE_OPT, 'to_graph', j=20)
             elif name in ('callee-raw-first', 'callee-plain-first'):
                 # same code object, the callee is an autograph artifact for one function and a plain
                 # convertible function for the other (through a closure cell and through a global)
@@ -381,6 +454,7 @@ def run_witness(name):
 WITNESSES = {
     'sig-globals': CLS_SIG, 'sig-closure': CLS_SIG, 'sig-reverse': None,
     'equal-twice': CLS_EQ, 'equal-keyerror': CLS_EQ, 'equal-annotations': CLS_EQ,
+    'redefine-inplace-compile': None, 'redefine-inplace-reload': None, 'wrapped-lib-first': None, 'wrapped-user-first': None,
     'status-disabled-first': None, 'status-enabled-first': None, 'callee-raw-first': None, 'callee-plain-first': None,
     'siblings-diverge': None, 'ureq-callee-first': None, 'ureq-direct-first': None, 'ureq-call-then-graph': None, 'ureq-graph-then-call': None,
 }
